@@ -3,6 +3,9 @@
 A program is a dict (name, arity) -> clauses in the AST of vt.miniprolog."""
 from .terms import mkint, mkatom, mkc, mklist, mkvar, NIL
 
+# cuts inside \+ are off in random programs: on this tree they hit several compiler defects (K51, K52 and unnamed relatives);
+# C07 runs a fixed set of local-cut clauses instead
+LOCAL_CUTS = False
 CONSTS = [mkatom('a'), mkatom('b'), mkatom('c'), mkint(1), mkint(2), mkc('f', mkatom('a')), mklist([mkatom('a')]), NIL]
 X, Y, Z, W = mkvar(1), mkvar(2), mkvar(3), mkvar(4)
 
@@ -47,13 +50,20 @@ def rgoal(rng, level, sigs, vars_, depth=0, allow_cut=True):
             a2 = ('and', [a2, ('true',)])      # known finding K41, see below
         return ('or', a1, a2)
     if r < 0.92:
-        c, t, e = (rgoal(rng, level, sigs, vars_, depth + 1, False), rgoal(rng, level, sigs, vars_, depth + 1, allow_cut),
+        cnd = rgoal(rng, level, sigs, vars_, depth + 1, False)
+        # (a cut inside the condition is not generated: known finding K51, probed by C07)
+        c, t, e = (cnd, rgoal(rng, level, sigs, vars_, depth + 1, allow_cut),
                    rgoal(rng, level, sigs, vars_, depth + 1, allow_cut))
         if e[0] == 'not':
             # known finding K41 (uninitialised variable after ( \+ A -> B ; \+ C )): the shape is probed separately by C07
             e = ('and', [e, ('true',)])
         return ('ite', c, t, e)
-    return ('not', rgoal(rng, level, sigs, vars_, depth + 1, False))
+    inner = rgoal(rng, level, sigs, vars_, depth + 1, False)
+    if allow_cut and LOCAL_CUTS and rng.random() < 0.35:
+        # a cut inside \+ is local to the negated goal (7.8.x); goals before and after it, possibly negations themselves
+        # the goal after the cut is a plain call: a negation or if-then-else there hits known finding K52 (probed by C07)
+        inner = ('and', [inner, ('cut',), rgoal(rng, level, sigs, vars_, 2, False)])
+    return ('not', inner)
 
 
 def rprogram(rng, cuts=True, lib=False):
